@@ -42,3 +42,10 @@ def poly_model_serial(inputs, model_fidelity=None, in_names=None, terms=None, al
     if cost is not None:
         ret['model_cost'] = float(cost)
     return ret
+
+
+def field_amp_model(inputs, p_coords=None):
+    """scalar input d and field input p -> scalar amp (module-level twin of systems.field_input_system's model)"""
+    dd = np.atleast_1d(np.asarray(inputs['d'], dtype=float))
+    pf = np.atleast_1d(np.asarray(inputs['p'], dtype=float))
+    return {'amp': dd * np.mean(pf, axis=-1) + 0.5 * dd ** 2}
